@@ -503,7 +503,8 @@ class Run:
         return n.obj.join(getattr(G.ENTS[t], rel), isouter=bool(rec["b"] & 2))
 
     def op_order_by(self, n, rec):
-        e = self.ex(rec, n.orm)
+        # rec["a"] & 4: order by a criterion (LIKE family etc. in ORDER BY position)
+        e = self.be(rec, n.orm) if rec["a"] & 4 else self.ex(rec, n.orm)
         if hasattr(e, "desc") and rec["b"] & 1:
             e = e.desc()
         return n.obj.order_by(e)
@@ -515,6 +516,8 @@ class Run:
         return n.obj.group_by(*self._cols(n, rec))
 
     def op_having(self, n, rec):
+        if rec["b"] & 1:
+            return n.obj.having(self.be(rec, n.orm))
         return n.obj.having(func.count(self._cols(n, rec, 1)[0]) > self.lit(rec["a"]))
 
     def op_limit(self, n, rec):
@@ -536,7 +539,7 @@ class Run:
         return n.obj.with_only_columns(*self._cols(n, rec), maintain_column_froms=bool(rec["b"] & 2))
 
     def op_add_columns(self, n, rec):
-        e = self.ex(rec, n.orm)
+        e = self.be(rec, n.orm) if rec["a"] & 4 else self.ex(rec, n.orm)
         if rec["b"] & 1:
             e = e.label("ac%d" % (rec["a"] % 2))
         return n.obj.add_columns(e)
@@ -1013,6 +1016,7 @@ _fallback("options", "where")
 
 # ------------------------------------------------------------------ check
 def check_tree(case, ctx):
+    stats0 = dict(G.STATS)
     obs = Run(case, quiet=False)
     try:
         obs.run()
@@ -1022,6 +1026,11 @@ def check_tree(case, ctx):
         classes = set(obs.classes)
         classes.add("nodes:%s" % ("1-3" if len(obs.nodes) <= 3 else "4-9" if len(obs.nodes) <= 9 else "10+"))
         classes.add("root:" + case["root"]["k"])
+        rewritten = [k for k, v in G.STATS.items() if v != stats0.get(k, 0)]
+        if rewritten:
+            classes.add("rewritten-operator")  # operators the compiler rewrites at compile time (LIKE family, regexp, ...)
+            for k in rewritten:
+                classes.add("rw:" + k)
         if multi:
             classes.add("shared-ancestor")
         ctx.note(case, nontrivial, classes=classes)
@@ -1064,8 +1073,8 @@ _rec = st.fixed_dictionaries(
         "op": st.integers(0, 60),
         "a": st.integers(0, 7),
         "b": st.integers(0, 7),
-        "be": G.bool_expr(1),
-        "e": G.any_expr(1),
+        "be": G.bool_expr_c(1),
+        "e": G.any_expr_c(1),
     }
 )
 
